@@ -455,6 +455,13 @@ def dtype_twin(cfg):
             pool = _TWIN_INTS if variant == "int" else _TWIN_VALUES
             model[nm] = pool[(3 * k + len(nm)) % len(pool)]
     E, terms = P.concretize(model)
+    for k, parts in (cfg.get("noise") or {}).items():
+        # the same level written as a float sum: equal to its partner within the documented tolerance but not bit for bit
+        tot = 0.0
+        for x in parts:
+            tot += float(x)
+        assert abs(tot - E[int(k)].real) < 1e-12 and tot != E[int(k)].real, "noise must be a rounding-level perturbation"
+        E[int(k)] = complex(tot, E[int(k)].imag)
     if variant == "float64":
         assert all(abs(np.asarray(t).imag).max() == 0 for t in terms.values())
         terms = {o: np.ascontiguousarray(t.real, dtype=float) for o, t in terms.items()}
@@ -467,7 +474,7 @@ def dtype_twin(cfg):
     snapshot = {o: t.copy() for o, t in terms.items()}
     try:
         num = bd.numeric_run(P.sizes, E, terms, hermitian=P.hermitian, fd=cfg.get("fd"), max_order=P.max_order, callback=(P.carrier == "B"),
-                             int_h0=(variant == "int"))
+                             int_h0=(variant == "int" and all(Fraction(x).denominator == 1 for x in cfg["spectrum"])))
     except Exception as e:  # noqa: BLE001
         is_lib, where = library_exception_info(e, pure_inputs=True)
         if not is_lib:
@@ -509,6 +516,12 @@ def dtype_twin_configs(tier, hermitian=True):
         dict(carrier="A", sizes=[1, 2], spectrum=["0", "1", "2"], terms=[[1]], max_order=3, fd={"1": [[0, 1], [1, 0]]}),
         dict(carrier="A", sizes=[1, 1, 2], spectrum=["0", "1", "2", "2"], terms=[[1, 0], [0, 1]], max_order=2),
         dict(carrier="B", sizes=[1, 2], spectrum=["0", "1", "3"], terms=[[1], [2]], max_order=3),
+    ]
+    # a degenerate level whose two members differ at rounding level in the typed run (0.1 + 0.2 vs 0.3): degeneracy is decided with the
+    # documented tolerance atol, consistently by the keep mask and by the diagonal solver
+    base += [
+        dict(carrier="A", sizes=[3], spectrum=["3/10", "3/10", "23/10"], terms=[[1]], max_order=3, noise={"1": [0.1, 0.2]}),
+        dict(carrier="A", sizes=[2, 1], spectrum=["3/10", "3/10", "23/10"], terms=[[1]], max_order=3, fd=[0], noise={"0": [0.1, 0.2]}),
     ]
     if tier == "thorough":
         base += [
